@@ -463,7 +463,7 @@ pub fn run_plan(plan: &C11Plan, want_trace: bool) -> RunOut {
             }
         }
     }
-    let judge = |fs_err: Option<FsErrAt>, out: &mut RunOut| {
+    let judge = |fs_err: Option<FsErrAt>, gave_up_at: Option<u32>, out: &mut RunOut| {
 
         if announced.is_empty() {
             out.stats.hit("probe.empty_directory");
@@ -555,7 +555,13 @@ pub fn run_plan(plan: &C11Plan, want_trace: bool) -> RunOut {
             _ => out.fail("command", sig.clone(), format!("first frame is not a decodable 08 14: {}", crate::conn::hex(cmd))),
         }
         // (2)..(4) the script
-        let avail = plan.cut.map(|c| c.0 as u64).unwrap_or(u64::MAX);
+        // `gave_up_at`: second reading for a long stall of the terminal - the client gave the upload up
+        // there (one error, nothing more), which is judged like a stream that ends at that offset
+        let avail = match (gave_up_at, plan.cut) {
+            (Some(g), Some(c)) => (g as u64).min(c.0 as u64),
+            (Some(g), None) => g as u64,
+            (None, c) => c.map(|c| c.0 as u64).unwrap_or(u64::MAX),
+        };
         let mut end_off = 3u64; // after the terminal's acknowledgement
         let mut expect_items = 0usize;
         let mut expect_answers: Vec<(Vec<u8>, u64)> = vec![]; // (kind marker or expected payload, end offset)
@@ -798,23 +804,33 @@ pub fn run_plan(plan: &C11Plan, want_trace: bool) -> RunOut {
     let mut models: Vec<Option<FsErrAt>> = fails.iter().filter(|f| **f != FsErrAt::Unknown).map(|f| Some(*f)).collect();
     models.dedup();
     models.push(None);
+    // ... and, where the terminal stalls for a second or more, "gave up there" as a further reading
+    let mut stall_readings: Vec<Option<u32>> = vec![None];
+    for off in crate::exchange::long_stall_offsets(&ex) {
+        stall_readings.push(Some(off));
+    }
     let mut first: Option<RunOut> = None;
     let mut accepted = false;
-    for m in models {
-        let mut o = RunOut::new();
-        judge(m, &mut o);
-        if o.violations.is_empty() {
-            out.stats.merge(&o.stats);
-            if m.is_some() {
-                out.stats.hit("probe.fs_error_ended_upload");
-            } else if !fails.is_empty() {
-                out.stats.hit("probe.fs_error_retried");
+    'outer: for g in stall_readings {
+        for m in models.iter().copied() {
+            let mut o = RunOut::new();
+            judge(m, g, &mut o);
+            if o.violations.is_empty() {
+                out.stats.merge(&o.stats);
+                if m.is_some() {
+                    out.stats.hit("probe.fs_error_ended_upload");
+                } else if !fails.is_empty() {
+                    out.stats.hit("probe.fs_error_retried");
+                }
+                if g.is_some() {
+                    out.stats.hit("probe.gave_up_during_a_stall");
+                }
+                accepted = true;
+                break 'outer;
             }
-            accepted = true;
-            break;
-        }
-        if first.is_none() {
-            first = Some(o);
+            if first.is_none() {
+                first = Some(o);
+            }
         }
     }
     if !accepted {
@@ -983,9 +999,7 @@ pub fn random_plan(rng: &mut Rng, max_size: u32) -> C11Plan {
     if mode == Mode::Paced {
         let len: usize = 3 + p.requests.iter().map(|r| request_frame(r).len()).sum::<usize>() + 6;
         p.paced_cuts = crate::c05::random_paced_cuts(rng, len);
-        // short stalls only: the upload's own judge has no second reading for a client that gives a
-        // stalled exchange up (long stalls are exercised on the sequences in C05/C06 and on the reader in C04)
-        p.paced_gaps_ms = crate::c05::random_paced_gaps(rng).into_iter().map(|g| g.min(900)).collect();
+        p.paced_gaps_ms = crate::c05::random_paced_gaps(rng);
     }
     p
 }
@@ -1029,6 +1043,32 @@ impl Check for C11 {
                 fs_faults: vec![],
             }
         }));
+        // the terminal pauses (11 s, 61 s, 1 h) at every byte position of a three-request upload: between
+        // a data block and the next request, inside a request, before the completion
+        {
+            let (pi, id) = (6u8, ID_TABLE[6].1);
+            let reqs = vec![Req::Data { id, offset: 0 }, Req::Data { id, offset: 256 }, Req::Data { id, offset: 512 }];
+            let len: u32 = 3 + reqs.iter().map(|r| request_frame(r).len() as u32).sum::<u32>() + 3;
+            let gaps = [11_000u32, 61_000, 3_600_000];
+            fams.push(Family::new("terminal_pauses_at_every_byte_position", len as u64 * gaps.len() as u64, true, move |i, rng| {
+                let pos = (i / gaps.len() as u64) as u32;
+                C11Plan {
+                    content_seed: rng.next_u64(),
+                    files: vec![(pi, 700)],
+                    extra: vec![],
+                    block: 256,
+                    password: 7,
+                    requests: reqs.clone(),
+                    end: End::Completion,
+                    mode: Mode::Paced,
+                    sched: Sched::whole(),
+                    paced_cuts: vec![pos],
+                    paced_gaps_ms: vec![0, gaps[(i % gaps.len() as u64) as usize]],
+                    cut: None,
+                    fs_faults: vec![],
+                }
+            }));
+        }
         // one file-system fault at every file operation of a five-request upload
         fams.push(Family::new("fs_fault_at_every_file_operation", 3 * 7 * 8, true, |i, rng| {
             let block = [1u32, 256, 1000][(i % 3) as usize];
